@@ -222,7 +222,7 @@ def dro_case(draw, polyhedral=True, allow_kl=False, max_scen=4, allow_lift=True,
     S = draw(st.integers(1, max_scen))
     nz = draw(st.integers(1, 3))
     lift = allow_lift and draw(st.integers(0, 5)) == 0
-    labels = draw(st.sampled_from(['int', 'str']))
+    labels = draw(st.sampled_from(['int', 'str', 'perm']))
     supports = []
     for s in range(S):
         centre = [draw(st.sampled_from([-1.0, 0.0, 0.5, 1.0, 2.0])) for _ in range(nz)]
@@ -359,7 +359,9 @@ def dro_case(draw, polyhedral=True, allow_kl=False, max_scen=4, allow_lift=True,
             'nx': nx, 'ny': ny, 'ny2': ny2, 'adapt_calls': calls, 'adapt_calls2': calls2, 'ymask': ymask,
             'xpos': draw(st.integers(0, 2)), 'xlo': xlo, 'xhi': xhi, 'cons': cons,
             'obj': {'kind': okind, 'pieces': pieces}, 'witness': {'x': xbar, 'y': ybar},
-            'supp_style': draw(st.sampled_from(['each', 'grouped'])), 'amb2': amb2}
+            'supp_style': draw(st.sampled_from(['each', 'grouped'])), 'amb2': amb2,
+            # events named by labels or by fset[labels] objects; entry slices taken before any adapt() call or at the call
+            'adapt_scen_obj': draw(st.booleans()), 'slices_first': draw(st.booleans())}
     fill_constants(case)
     return case
 
@@ -448,6 +450,8 @@ def support_max(s, g, fallback=None):
 
 # ----------------------------------------------------------------------------- builder
 def scen_labels(case):
+    if case['labels'] == 'perm':          # integer labels that are a permutation of the positions
+        return list(range(case['S'] - 1, -1, -1))
     if case['labels'] == 'int':
         return list(range(case['S']))
     return ['s%d' % (i * 3 % 7 + 10 * i) for i in range(case['S'])]
@@ -481,13 +485,16 @@ def build(case):
             if yv is None:
                 continue
             for grp in calls:
-                if len(grp) == 1 and grp[0] % 2 == 0:
+                if case.get('adapt_scen_obj'):
+                    yv.adapt(fset[lab[grp[0]]] if len(grp) == 1 else fset[[lab[s] for s in grp]])
+                elif len(grp) == 1 and grp[0] % 2 == 0:
                     yv.adapt(lab[grp[0]])
                 else:
                     yv.adapt([lab[s] for s in grp])
         mask = np.array(case['ymask']).reshape(ny, nz + nu)
+        entries = [ya[k] if k < ny1 else yb[k - ny1] for k in range(ny)] if case.get('slices_first') else None
         for k in range(ny):
-            yk = ya[k] if k < ny1 else yb[k - ny1]
+            yk = entries[k] if entries is not None else (ya[k] if k < ny1 else yb[k - ny1])
             for (rv, off, n) in ((z, 0, nz), (u, nz, nu)):
                 if rv is None:
                     continue
